@@ -4,6 +4,7 @@ package main
 
 import (
 	"bytes"
+	"context"
 	"fmt"
 	"runtime"
 	"strconv"
@@ -40,6 +41,7 @@ type sthread struct {
 	running bool          // released and not yet arrived / done (possibly blocked on a lock)
 	dead    bool          // declared hung: never stepped again
 	todo    []Req
+	cancel  context.CancelFunc // abandons the current request (its context ends)
 }
 
 var (
@@ -71,8 +73,8 @@ func installHook() {
 type Sched struct {
 	e       *Emu
 	threads []*sthread
-	waiter  int // thread whose goroutine is blocked on an object lock, or -1
-	forced  int // thread that must be stepped next (the waiter after a release), or -1
+	waiter  int  // thread whose goroutine is blocked on an object lock, or -1
+	forced  int  // thread that must be stepped next (the waiter after a release), or -1
 	ruleOff bool // the implementation did something the waiter rule cannot order (a lock holder blocked)
 }
 
@@ -110,11 +112,15 @@ func (s *Sched) Step(i int) Outcome {
 		c := t.todo[0]
 		t.arrive, t.release, t.done = make(chan string), make(chan struct{}), make(chan Resp, 1)
 		t.running = true
+		ctx, cancel := context.WithCancel(context.Background())
+		t.cancel = cancel
 		go func() {
 			g := goid()
 			atomic.StoreInt64(&t.gid, g)
 			registry.Store(g, t)
 			defer registry.Delete(g)
+			ctxByG.Store(g, ctx)
+			defer ctxByG.Delete(g)
 			defer func() {
 				if p := recover(); p != nil {
 					t.done <- Resp{Status: 599, Kind: "none", Panic: fmt.Sprint(p)}
@@ -177,6 +183,12 @@ func (s *Sched) Step(i int) Outcome {
 	}
 }
 
+// Cancel ends the context of thread i's current request, as when its client gives up.
+func (s *Sched) Cancel(i int) {
+	if i < len(s.threads) && s.threads[i].cancel != nil {
+		s.threads[i].cancel()
+	}
+}
 
 // StepPref executes the scheduler preference "step thread i" under the waiter rule and reports every
 // step actually executed through rec.  A goroutine that was seen blocked on a lock is not parked: it
